@@ -227,6 +227,26 @@ def make_obj_class(versions=False):
             dig = _z.crc32(repr((args, sorted(kwargs.items()))).encode()) % 100000 + 10
             return self._exec(cid, dig)
 
+        # a set kept inside the same state: k is in it iff the last executed command about k was 'ad:k'.  Calls are
+        # byte-identical when repeated; 'rm:k' raises unless k is in the set (a failure that depends on the state)
+        def _inset(self, k):
+            for (_, c, _) in reversed(self.hist):
+                if c in ('ad:' + k, 'rm:' + k):
+                    return c.startswith('ad:')
+            return False
+
+        @replicated
+        def ad(self, cmd):
+            return self._exec(cmd, 0)
+
+        @replicated
+        def rm(self, cmd):
+            if not self._inset(cmd.split(':', 1)[1]):
+                self._sim.cluster.rec.step_obs.append({'k': 'raise', 'n': self._sim.id, 'cid': cmd,
+                                                       'pos': self.raftLastApplied + 1})
+                raise KeyError(cmd)
+            return self._exec(cmd, 0)
+
         @replicated
         def boom(self, cid):
             self._sim.cluster.rec.step_obs.append({'k': 'raise', 'n': self._sim.id, 'cid': cid,
@@ -691,6 +711,10 @@ class Cluster(object):
                     o.op(cid, callback=cb)
             elif kind == 'boom':
                 o.boom(cid, callback=cb)
+            elif kind == 'sad':
+                o.ad('ad:' + spec['x'], callback=cb)
+            elif kind == 'srm':
+                o.rm('rm:' + spec['x'], callback=cb)
             elif kind == 'opx':
                 o.opx(cid, *spec.get('args', []), callback=cb, **spec.get('kwargs', {}))
             elif kind == 'vop':
